@@ -91,3 +91,11 @@ CLASSIFIERS["k3_xarray_end_inclusive"] = _explained("K-3")
 def k7(site, case, info):
     """PandasStore.save: two collected results whose <stream>.<module>.<test> names are equal after CF sanitising."""
     return site == "PandasStore.save" and info.get("shared_column") is True and info.get("collision") is True
+
+
+@classifier("k10_xarray_other_dim_window")
+def k10(site, case, info):
+    """XarrayStream with z/lat/lon on another dimension of the same size: a two-sided window makes .sel(time=...) on those
+    variables raise KeyError."""
+    return (site == "XarrayStream.run(axes on another dimension)" and info.get("raised") and info.get("exc") == "KeyError"
+            and info.get("two_sided_window") and info.get("has_axes") and info.get("has_time"))
